@@ -196,6 +196,14 @@ CONTEXTS = {
     "i[f[H]e[m]]e[m]": (lambda b: (("if", (("for", b, (M,)),), (M,)),), True),
     "f[f[f[H]]]": (lambda b: (("for", (("for", (("for", b, ()),), ()),), ()),), True),
     "f[i[i[H]]m]": (lambda b: (("for", (("if", (("if", b, ()),), ()), M), ()),), True),
+    # two loops that both use their "interrupted" state: the inner loop (hole + a statement after it)
+    # is followed by an interrupt of the outer loop and a further statement
+    "f[f[Hm]i[B]m]e[m]": (lambda b: (("for", (("for", b + (M,), ()), ("if", (("break",),), ()), M), (M,)),), True),
+    "w[w[Hm]i[C]m]e[m]": (lambda b: (("while", (("while", b + (M,), ()), ("if", (("continue",),), ()), M), (M,)),), True),
+    "f[w[Hm]e[i[B]m]m]": (lambda b: (("for", (("while", b + (M,), (("if", (("break",),), ()), M)), M), ()),), True),
+    "w[f[Hm]i[B]m]": (lambda b: (("while", (("for", b + (M,), ()), ("if", (("break",),), ()), M), ()),), True),
+    "f[i[C]f[Hm]m]": (lambda b: (("for", (("if", (("continue",),), ()), ("for", b + (M,), ()), M), ()),), True),
+    "f[Hm]w[Hm]": (lambda b: (("for", b + (M,), ()), ("while", b + (M,), ())), True),
     "i[H]": (lambda b: (("if", b, ()),), False),
     "i[m]e[H]m": (lambda b: (("if", (M,), b), M), False),
 }
